@@ -341,8 +341,8 @@ class Analysis:
         self.effect = {}
         self.tick, self.last, self.readstack = 0, {}, []
         self.memo, self.done, self.inprogress = {}, {}, set()
-        self.fsinks, self.fsites = {}, {}
-        self.cur_sinks, self.cur_sites = {}, []
+        self.fsinks, self.fsites, self.frets, self.called = {}, {}, {}, set()
+        self.cur_sinks, self.cur_sites = {}, {}
         self.modmemo = {}
         self.stack = []
         self.sinks = {}
@@ -456,7 +456,8 @@ class Analysis:
                         fi2 = self.by_node.get(id(hit[2])) or self._adopt(hit[0], hit[2])
                         return ('funcs', [(fi2, True)])
                     # class made by a factory (mixin tower): fall back to name based lookup
-                    cands = [(x, True) for x in self.by_name.get(a, []) if x.cls is not None and x.cls is not cls]
+                    cands = [(x, x.selfname is not None) for x in self.by_name.get(a, [])
+                             if x.cls is not None and x.cls is not cls]
                     if cands and cls is not None and not all(self.repo.resolve_class(cm, b) for b in cls.bases):
                         return ('funcs', cands)
                 return ('builtin', 'super.' + a)
@@ -475,7 +476,7 @@ class Analysis:
                     return ('none', f'{recv.id}.{a} not found')
                 if r is None:
                     return ('builtin', recv.id + '.' + a)      # external module (os, inspect, ...)
-            cands = [(x, x.cls is not None) for x in self.by_name.get(a, []) if x.outer is None]
+            cands = [(x, x.selfname is not None) for x in self.by_name.get(a, []) if x.outer is None]
             if not is_self and (a in PURE_METHODS or a in ACCUM_METHODS):
                 return ('builtin', '.' + a)
             if cands:
@@ -708,7 +709,14 @@ class Analysis:
         self.sites = []
         for fi in order:
             self.sinks.update(self.fsinks.get(fi.id, {}))
-            self.sites.extend(self.fsites.get(fi.id, []))
+            self.sites.extend(self.fsites.get(fi.id, {}).values())
+            if fi.mod.rel in self.scope and fi.id not in self.called and u_of(self.frets.get(fi.id, O)):
+                # nobody the analysis can see consumes the value (dynamic dispatch such as visit_<Node>,
+                # or the public API): the unordered order escapes
+                self.sinks[(fi.mod.rel, fi.qual, 'return value')] = dict(
+                    file=fi.mod.rel, func=fi.qual, construct='return value', line=fi.node.lineno,
+                    why="returns a collection whose order depends on PYTHONHASHSEED to callers that are reached "
+                        "only by dynamic dispatch / from outside the analysed files")
 
     def closure_env(self, fi):
         """environment of the enclosing functions (for a nested def analysed on its own)"""
@@ -742,7 +750,7 @@ class Analysis:
 
     def analyse_function(self, fi):
         report = fi.mod.rel in self.scope
-        self.cur_sinks, self.cur_sites = {}, []
+        self.cur_sinks, self.cur_sites = {}, {}
 
         def go():
             env, nul = self.closure_env(fi)
@@ -759,6 +767,7 @@ class Analysis:
             return it
         t0, reads, it = self.tracked(go)
         self.done[fi.id] = (t0, reads)
+        self.frets[fi.id] = C(it.gen_u, it.gen_elem) if fi.is_gen else it.ret
         self.fsinks[fi.id] = self.cur_sinks
         self.fsites[fi.id] = self.cur_sites
         return it
@@ -1362,6 +1371,7 @@ class Interp:
         an.resolved += 1
         ret = O
         for fi2, bound in kind[1]:
+            an.called.add(fi2.id)
             binding, nulls = self.bind(call, fi2, bound, pos, kw)
             for p, v in binding.items():
                 an._upd(an.params, (fi2.id, p), v)
@@ -1646,7 +1656,7 @@ def _note_site(self, it, node, iter_expr, itv, effects, comp=False, join=False):
     nontrivial = any(isinstance(n, (ast.Call, ast.Attribute)) for n in ast.walk(iter_expr)) and not (
         isinstance(iter_expr, ast.Call) and isinstance(iter_expr.func, ast.Name) and iter_expr.func.id == 'range')
     unordered = u_of(itv)
-    self.cur_sites.append(dict(file=rel, func=qual, kind=kind, iter=norm(iter_expr), unordered=unordered,
+    self.cur_sites[(id(node), id(iter_expr))] = (dict(file=rel, func=qual, kind=kind, iter=norm(iter_expr), unordered=unordered,
                            nontrivial=nontrivial, effects=list(effects or []), line=getattr(node, 'lineno', 0)))
     if unordered and effects and not join:
         if comp:
